@@ -9,7 +9,7 @@
     [le], [lt] are the order of [Ops]; [canon x j] says xs[j] <= x < xs[j+1], or j = N-2 and
     x <= xs[N-1]; [seg x j] says xs[j] <= x <= xs[j+1]. *)
 From Coq Require Import ZArith List.
-From LP Require Import Num OrdLaws C09_Model C09_Proofs C09_Proofs_Ctor.
+From LP Require Import Num OrdLaws C09_Model C09_Proofs C09_Proofs_Ctor C09_Proofs_Session.
 Import ListNotations.
 Local Open Scope Z_scope.
 
@@ -273,3 +273,45 @@ Theorem C09_units_do_not_enter_prefactor :
       snd (stepE Ops N xv E (fresh (prefactor_after Ops h (n1 Ops))) q).
 Proof. exact @units_not_in_prefactor. Qed.
 Print Assumptions C09_units_do_not_enter_prefactor.
+
+(** "copies and assignments ...; copies taken at arbitrary points of the sequence": sessions of SEVERAL objects
+    alive in one process, holding possibly different tables (table number t: size tabN t, abscissae tabx t,
+    evaluation parameters E t), in numbered slots.  A session is any list of: a member call on the object in a
+    slot, construction of an object of some table in a slot (or assignment from a temporary), copy
+    construction / copy assignment from slot a to slot b, std::swap, destruction.  [pf_session1 h] is the
+    bookkeeping that ignores every query: which table each slot holds and which prefactor, as moved by the
+    constructions / copies / swaps / destructions and changed by Set_Prefactor / Multiply alone.  After ANY
+    session, the object in slot k answers ANY call exactly as a fresh object of the table t it holds according
+    to the bookkeeping, with the prefactor p of the bookkeeping: whatever happened to the source of a copy after
+    the copy was taken (further calls, another table assigned in place, destruction) or to the copies of an
+    object is invisible on it; and a slot that is empty in the bookkeeping is empty. *)
+Theorem C09_session_history_free :
+  forall (T : Type) (Ops : NumOps T), OrdLaws Ops ->
+  forall (tabN : nat -> Z) (tabx : nat -> Z -> T) (E : nat -> evals T),
+  (forall t, increasing Ops (tabN t) (tabx t)) -> (forall t, size_ok (tabN t)) ->
+  forall (h : list (sop (op T))) (k : nat) (q : op T),
+    let step_of := fun t => stepE Ops (tabN t) (tabx t) (E t) in
+    let s := srun _ _ _ step_of (init Ops) (@ONone T) h [] in
+    (forall t p, get_slot T k (pf_session1 Ops h) = Some (mkSobj t p) ->
+       snd (sstep _ _ _ step_of (init Ops) (@ONone T) s (SQuery k q)) = snd (step_of t (fresh p) q)) /\
+    (get_slot T k (pf_session1 Ops h) = None -> get_slot _ k s = None).
+Proof. intros T Ops OL tabN tabx E Hi Hn. exact (session_history_free Ops OL tabN tabx E Hi Hn). Qed.
+Print Assumptions C09_session_history_free.
+
+(** the same for Interpolation_2D objects (with their two helper objects each) *)
+Theorem C09_session_history_free_2d :
+  forall (T : Type) (Ops : NumOps T), OrdLaws Ops ->
+  forall (tNx : nat -> Z) (tx : nat -> Z -> T) (tNy : nat -> Z) (ty : nat -> Z -> T) (tf : nat -> Z -> Z -> T),
+  (forall t, increasing Ops (tNx t) (tx t)) -> (forall t, increasing Ops (tNy t) (ty t)) ->
+  (forall t, size_ok (tNx t)) -> (forall t, size_ok (tNy t)) ->
+  forall (h : list (sop (op2 T))) (k : nat) (q : op2 T),
+    let step_of := fun t => step2 Ops (tNx t) (tx t) (tNy t) (ty t) (tf t) in
+    let s := srun _ _ _ step_of (init2 Ops) (@O2None T) h [] in
+    (forall t p, get_slot T k (pf_session2 Ops h) = Some (mkSobj t p) ->
+       snd (sstep _ _ _ step_of (init2 Ops) (@O2None T) s (SQuery k q)) = snd (step_of t (mkState2 (init Ops) (init Ops) p) q)) /\
+    (get_slot T k (pf_session2 Ops h) = None -> get_slot _ k s = None).
+Proof.
+  intros T Ops OL tNx tx tNy ty tf Hx Hy Hnx Hny.
+  exact (session_history_free2 Ops OL tNx tx tNy ty tf Hx Hy Hnx Hny).
+Qed.
+Print Assumptions C09_session_history_free_2d.
